@@ -372,6 +372,20 @@ func (tr *FnTrans) frameChecks() {
 						continue
 					case *ssa.Parameter:
 						path = x.Name() + path
+					case *ssa.UnOp:
+						// p.f.g where p.f is a pointer loaded from a by-value parameter that was
+						// spilled to memory and whose field is never reassigned here
+						if x.Op == token.MUL && spilledParamField(tr.fn, x.X) {
+							cur = x.X
+							continue
+						}
+						okShape = false
+					case *ssa.Alloc:
+						if p := spilledParam(tr.fn, x); p != nil {
+							path = p.Name() + path
+						} else {
+							okShape = false
+						}
 					case *ssa.Phi:
 						// the parameter itself or an object allocated here
 						name := ""
@@ -734,6 +748,20 @@ func globalsIn(x *Expr, pkg *ssa.Package) []string {
 // translateModifies rewrites a callee modifies expression param.f.g into the caller's terms when the
 // actual argument is one of the caller's parameters or the address of a field of one.
 func translateModifies(x *Expr, cc *ssa.CallCommon) string {
+	if x.Op == "call" && x.S == "pointee" && len(x.A) == 1 && x.A[0].Op == "id" {
+		// the callee writes through a pointer it was handed: allowed when the caller handed on its
+		// own parameter, whose pointee its own modifies clause names
+		params, _ := sigNames(cc.Signature(), cc.IsInvoke())
+		for i, n := range params {
+			if n != x.A[0].S || i >= len(cc.Args) {
+				continue
+			}
+			if p, ok := cc.Args[i].(*ssa.Parameter); ok {
+				return "pointee(" + p.Name() + ")"
+			}
+		}
+		return ""
+	}
 	var fields []string
 	cur := x
 	for cur != nil && cur.Op == "sel" {
@@ -765,4 +793,72 @@ func translateModifies(x *Expr, cc *ssa.CallCommon) string {
 		}
 		return ""
 	}
+}
+
+// spilledParam: the alloc is the memory home of a parameter (its first and only whole-variable
+// store is the parameter itself, in the entry block).
+func spilledParam(fn *ssa.Function, al *ssa.Alloc) *ssa.Parameter {
+	var par *ssa.Parameter
+	for _, b := range fn.Blocks {
+		for _, in := range b.Instrs {
+			st, ok := in.(*ssa.Store)
+			if !ok || st.Addr != al {
+				continue
+			}
+			p, isP := st.Val.(*ssa.Parameter)
+			if !isP || par != nil || b.Index != 0 {
+				return nil
+			}
+			par = p
+		}
+	}
+	return par
+}
+
+// spilledParamField: addr is a field chain inside a spilled by-value parameter, and no store in the
+// function writes that field chain (so a pointer loaded from it is the one the caller passed).
+func spilledParamField(fn *ssa.Function, addr ssa.Value) bool {
+	chain := func(v ssa.Value) (*ssa.Alloc, string) {
+		path := ""
+		for {
+			switch x := v.(type) {
+			case *ssa.FieldAddr:
+				path = fmt.Sprintf(".%d", x.Field) + path
+				v = x.X
+				continue
+			case *ssa.Alloc:
+				return x, path
+			}
+			return nil, ""
+		}
+	}
+	al, path := chain(addr)
+	if al == nil || path == "" || spilledParam(fn, al) == nil {
+		return false
+	}
+	for _, b := range fn.Blocks {
+		for _, in := range b.Instrs {
+			st, ok := in.(*ssa.Store)
+			if !ok {
+				continue
+			}
+			a2, p2 := chain(st.Addr)
+			if a2 == al && p2 != "" && (strings.HasPrefix(path, p2) || strings.HasPrefix(p2, path)) {
+				return false
+			}
+		}
+	}
+	// the alloc must not escape through calls (its address is only used for field access and loads)
+	for _, ref := range *al.Referrers() {
+		switch r := ref.(type) {
+		case *ssa.FieldAddr, *ssa.Store, *ssa.DebugRef:
+		case *ssa.UnOp:
+			if r.Op != token.MUL {
+				return false
+			}
+		default:
+			return false
+		}
+	}
+	return true
 }
